@@ -171,6 +171,8 @@ type lsAnalysis struct {
 	direct1, calls1, waitsD1 map[string]map[string]bool // the complete first-pass maps (for printing call chains)
 	pass                     int
 	out                      *lsOut
+	heldSites                map[string][2]int // (pass 1) unexported method key -> {call sites seen by call(), of which with a lock of the receiver's instance held}
+	heldHelper               map[string]bool   // (pass 2) methods walked only in place, under their callers' locksets
 }
 
 type lsAccess struct {
@@ -401,6 +403,10 @@ func lsAnalyze(module string, targets []lsTarget, srcs map[string]map[string]str
 		a.waitsD = map[string]map[string]bool{}
 		a.labels = map[string]string{}
 		a.out = &lsOut{tracked: out.tracked, locks: out.locks}
+		if pass == 1 {
+			a.heldSites = map[string][2]int{}
+			a.heldHelper = map[string]bool{}
+		}
 		for _, p := range a.order {
 			var keys []string
 			for k := range p.funcs {
@@ -408,10 +414,14 @@ func lsAnalyze(module string, targets []lsTarget, srcs map[string]map[string]str
 			}
 			sort.Slice(keys, func(i, j int) bool { return p.funcs[keys[i]].Pos() < p.funcs[keys[j]].Pos() })
 			for _, k := range keys {
+				if pass == 2 && a.heldHelper[p.dir+"|"+k] {
+					continue // walked in place at each of its call sites, under the caller's lockset
+				}
 				a.walkFunc(p, k, p.funcs[k])
 			}
 		}
 		if pass == 1 {
+			a.findHeldHelpers()
 			a.acq = lsClosure(a.direct, a.calls)
 			a.waitsC = lsClosure(a.waitsD, a.calls)
 			a.direct1, a.calls1, a.waitsD1 = a.direct, a.calls, a.waitsD
@@ -420,6 +430,44 @@ func lsAnalyze(module string, targets []lsTarget, srcs map[string]map[string]str
 	a.coverEdges()
 	a.sharedFields()
 	return a.out, nil
+}
+
+// An unexported method of a lock-bearing struct that is only ever CALLED (never used as a value, never started with `go` or
+// deferred), on a plain identifier of its own type, and every one of whose call sites holds a lock of that very instance, is
+// a "lock-held helper" (`func (s *Store) lockedGet(..)`, documented "must be called with s.mux held"). Walking it on its own,
+// with nothing held, would report its accesses as unguarded although no execution reaches them without the lock. It is
+// instead walked in place at each call site with the caller's locks on that instance (as the parameter-passing inliner does
+// for guarded structures handed to a callee). Anything that does not fit - one call site without the lock, a method value, a
+// `go` statement, a name shared with another selector in the package - leaves the method walked on its own as before.
+func (a *lsAnalysis) findHeldHelpers() {
+	for _, p := range a.order {
+		sel := map[string]int{} // selector name -> occurrences anywhere in the package's function bodies
+		for _, fd := range p.funcs {
+			if fd.Body == nil {
+				continue
+			}
+			ast.Inspect(fd.Body, func(n ast.Node) bool {
+				if s, ok := n.(*ast.SelectorExpr); ok {
+					sel[s.Sel.Name]++
+				}
+				return true
+			})
+		}
+		for k, fd := range p.funcs {
+			if fd.Recv == nil || fd.Body == nil {
+				continue
+			}
+			tn := lsRecvType(fd)
+			name := fd.Name.Name
+			if tn == "" || len(p.locks[tn]) == 0 || name == "" || !(name[0] >= 'a' && name[0] <= 'z') || lsRecvName(fd) == "" {
+				continue
+			}
+			s := a.heldSites[p.dir+"|"+k]
+			if s[0] >= 1 && s[0] == s[1] && sel[name] == s[0] {
+				a.heldHelper[p.dir+"|"+k] = true
+			}
+		}
+	}
 }
 
 // per unit: what it does directly, plus what everything it may call does
@@ -2504,8 +2552,61 @@ func (w *lsWalker) call(c *ast.CallExpr) {
 		}
 	}
 	w.noteCall(c)
+	if fd != nil && p2 == w.pkg && fd.Recv != nil && w.inLit == 0 && w.inDefer == 0 {
+		if x, ok := c.Fun.(*ast.SelectorExpr); ok {
+			if id, ok := x.X.(*ast.Ident); ok {
+				if w.a.pass == 1 {
+					s := w.a.heldSites[key]
+					s[0]++
+					for _, h := range w.held {
+						if h.inst == id.Name && h.pkg == p2 && h.typ == lsRecvType(fd) {
+							s[1]++
+							break
+						}
+					}
+					w.a.heldSites[key] = s
+				} else if w.a.heldHelper[key] {
+					w.inlineHeld(key, fd, c, id.Name)
+					return
+				}
+			}
+		}
+	}
 	if fd != nil && p2 == w.pkg && len(passed) > 0 {
 		w.inline(key, fd, c)
+	}
+}
+
+// walk a lock-held helper (findHeldHelpers) in place: the caller's locks on the instance it is called on are the locks held
+// on the helper's receiver
+func (w *lsWalker) inlineHeld(key string, fd *ast.FuncDecl, c *ast.CallExpr, inst string) {
+	sig := key + "#held"
+	for _, s := range w.stack {
+		if s == sig {
+			return
+		}
+	}
+	if len(w.stack) >= 5 {
+		w.giveUp("call chain too deep to follow", c.Pos())
+		return
+	}
+	name := key[strings.Index(key, "|")+1:]
+	rn := lsRecvName(fd)
+	var held []lsHeld
+	for _, h := range w.held {
+		if h.inst == inst {
+			h2 := h
+			h2.inst = rn
+			held = append(held, h2)
+		}
+	}
+	cw := &lsWalker{a: w.a, pkg: w.pkg, top: w.top, label: w.label + ">" + name, env: map[string]*lsType{}, alias: map[string]*lsLoc{},
+		held: held, stack: append(append([]string{}, w.stack...), sig), inLit: w.inLit, unit: w.unit, noWait: w.noWait, inDefer: w.inDefer, conds: w.conds, body: fd.Body, recv: rn}
+	cw.bindParams(fd, c.Args, w)
+	n := len(cw.held)
+	cw.block(fd.Body)
+	if len(cw.held) != n {
+		w.giveUp("callee changes the caller's lockset", c.Pos())
 	}
 }
 
